@@ -434,6 +434,48 @@ pub fn run(ctx: &Ctx) -> Report {
         Case::Small(a) => small_case(rep, *a, n),
         Case::Large(c, per) => large_case(rep, seed, *c, *per),
     });
+    // numeric boundaries of the coordinate type (sign bit, 16-bit carry, top of the range): translation by
+    // every boundary offset that does not exceed the origin, and intersections among boundary rectangles
+    if ctx.shard.0 == 0 {
+        let b: [u32; 14] = [0, 1, 2, 0x7FFF, 0x8000, 0xFFFF, 0x1_0000, 0x7FFF_FFFE, 0x7FFF_FFFF, 0x8000_0000, 0x8000_0001, 0xFFFF_FFFE, 0xFFFF_FFFF, 0x4000_0000];
+        let sizes: [u32; 6] = [0, 1, 2, 0x7FFF_FFFF, 0x8000_0000, 0xFFFF_FFFF];
+        let mut rects: Vec<Rect> = Vec::new();
+        for &x in &b {
+            for &y in if miri { &b[..3] } else { &b[..] } {
+                for &w in &sizes {
+                    if x as u64 + w as u64 > u32::MAX as u64 {
+                        continue;
+                    }
+                    let hh = sizes[(x as usize + y as usize + w as usize) % sizes.len()];
+                    if y as u64 + hh as u64 > u32::MAX as u64 {
+                        continue;
+                    }
+                    rects.push(Rect::new(x, y, w, hh));
+                }
+            }
+        }
+        for a in &rects {
+            let offs: Vec<(u32, u32)> = b.iter().filter(|dx| **dx <= a.x).flat_map(|dx| b.iter().filter(|dy| **dy <= a.y).map(move |dy| (*dx, *dy))).collect();
+            check_single(&mut rep, a, &offs, "boundary");
+            rep.count("boundary_rectangles", 1);
+        }
+        if !miri {
+            for a in rects.iter().step_by(3) {
+                for bb in rects.iter().step_by(5) {
+                    match catch_unwind(AssertUnwindSafe(|| (a.intersect(*bb), bb.intersect(*a), a.intersect(*bb).is_empty()))) {
+                        Err(p) => {
+                            rep.count("panics_caught", 1);
+                            fail_pair(&mut rep, "pixel-set", "panic", a, bb, format!("{}.intersect({}) panicked: {}", rs(a), rs(bb), panic_msg(p)), "boundary");
+                        }
+                        Ok((r, r2, e)) => {
+                            check_pair(&mut rep, a, bb, &r, &r2, e, "boundary", false);
+                        }
+                    }
+                    rep.count("boundary_pairs_checked", 1);
+                }
+            }
+        }
+    }
     rep.count("small_rectangles", ((n + 1) as u64).pow(4));
     rep.note(&format!(
         "small scale: all ordered pairs of rectangles with x,y,w,h in 0..={} (bit-set oracle and interval oracle); large scale: {} seeded pairs up to u32::MAX with x+w and y+h representable (interval oracle in u64), second operand derived from the first in 2/3 of the draws so that touching / contained / overlapping configurations are frequent",
